@@ -327,6 +327,54 @@ def stable_solve_instance(n, D):
                     max_paths=200, native_n=2)
 
 
+def stable_solve_bounded_instance():
+    """stable_solve on stacks with singular / zero neighbours, for every combination of real and complex A and B (bounded)."""
+    from pb_bss.math import solve as ms
+
+    def make(B):
+        return {'D': B.choose('D', [1, 2, 3, 5]), 'lead': B.choose('lead', [(), (4,), (2, 3)]), 'ca': B.choose('ca', [False, True]),
+                'cb': B.choose('cb', [False, True]), 'sing': B.choose('sing', ['none', 'zero', 'rank', 'both']), 'vec': B.choose('vec', [False, True]),
+                'seed': B.choose('seed', list(range(2000))), 'd': B.given('d', np.zeros(1))}
+
+    def call(inp):
+        rng = np.random.RandomState(inp['seed'])
+        D, lead = inp['D'], tuple(inp['lead'])
+        A = rng.normal(size=lead + (D, D)) + (1j * rng.normal(size=lead + (D, D)) if inp['ca'] else 0)
+        bshape = lead + ((D, 2) if not inp['vec'] else (D, D))
+        Bm = rng.normal(size=bshape) + (1j * rng.normal(size=bshape) if inp['cb'] else 0)
+        singular = np.zeros(lead, dtype=bool)
+        if lead and inp['sing'] != 'none':
+            flat = [i for i in np.ndindex(*lead)]
+            if inp['sing'] in ('zero', 'both'):
+                A[flat[0]] = 0
+                singular[flat[0]] = True
+            if inp['sing'] in ('rank', 'both') and D > 1:
+                A[flat[-1]][:, -1] = A[flat[-1]][:, 0]              # two equal columns: exactly singular
+                singular[flat[-1]] = True
+        A0, B0 = A.copy(), Bm.copy()
+        X = ms.stable_solve(A, Bm)
+        return {'X': np.asarray(X), 'A': A0, 'B': B0, 'singular': singular, 'untouched': bool(np.array_equal(A, A0) and np.array_equal(Bm, B0))}
+
+    def ensures(sp, inp, out):
+        X, A, Bm = out['X'], out['A'], out['B']
+        yield 'shape', bool(X.shape == Bm.shape)
+        yield 'arguments-untouched', out['untouched']
+        if X.shape != Bm.shape:
+            return
+        ok = True
+        for i in np.ndindex(*A.shape[:-2]):
+            if out['singular'][i] if out['singular'].shape else False:
+                continue
+            ref = np.linalg.solve(A[i], Bm[i])
+            if not (np.all(np.isfinite(X[i])) and np.allclose(X[i], ref, rtol=1e-8, atol=1e-10)):
+                ok = False
+        yield 'regular-bins-solved-whatever-the-neighbours-and-dtypes', ok
+        yield 'complex-input-gives-complex-result', bool(np.iscomplexobj(X) == (np.iscomplexobj(A) or np.iscomplexobj(Bm)))
+
+    return Instance('C13', 'pb_bss.math.solve:stable_solve', 'bounded-dtypes-and-singular-neighbours', make, call, ensures, mode='bounded',
+                    bounded_n=150, frame=False)
+
+
 def singular_bounded_instance(modes, tag):
     from pb_bss.extraction import beamformer as bf, beamformer_wrapper as bw
 
@@ -412,6 +460,7 @@ def instances(tier):
     out.append(phase_instance((3,), 4, 3))
     out.append(stable_solve_instance(2, 1))
     out.append(stable_solve_instance(2, 2))
+    out.append(stable_solve_bounded_instance())
     out.append(singular_bounded_instance(['zero', 'zero-noise', 'zero-row-and-column'], 'zero-or-exactly-singular'))
     out.append(singular_bounded_instance(['rank-deficient'], 'numerically-rank-deficient'))
     return out
